@@ -47,6 +47,9 @@ CORPUS = [
      ("struct EBS { EB e; FB f; EC c; unsigned long long q; };", ["EBS"], ["EB", "FB", "EC"])],
     [("struct bf1 { uint8 flag : 1; uint8 rest : 7; };", ["bf1"], []), ("struct bf2 { uint8 a; };", ["bf2"], []), ("struct bf3 { uint16 enum : 4; uint16 other : 12; };", ["bf3"], []),
      ("union bf4 { uint8 b; uint16 w; };", ["bf4"], [])],
+    # unrelated structures with the same member names and the same packed layout, differing only in a member's type
+    [("enum Color : uint16 { RED = 0x4C27 };", ["Color"], []), ("struct pixel { Color kind; uint16 v; };", ["pixel"], ["Color"]), ("struct sample { uint16 kind; uint16 v; };", ["sample"], []),
+     ("struct s24 { int24 d; uint8 t; };", ["s24"], []), ("struct u24 { uint24 d; uint8 t; };", ["u24"], []), ("flag Fl16 : uint16 { FA = 1 };", ["Fl16"], []), ("struct fsample { Fl16 kind; uint16 v; };", ["fsample"], ["Fl16"])],
     [("enum AE : int16 { M = -2, N, O = M + 10 };", ["AE"], []), ("flag AF { F1, F2, F3 };", ["AF"], []), ("#define SZ 2\n", ["SZ"], []), ("struct AG { AE e[SZ]; AF f; };", ["AG"], ["AE", "AF", "SZ"])],
     [("struct AH { uint8 _; uint16 _; uint8 a; };", ["AH"], [])],
     [("#define len 4\n", ["len"], []), ("struct HasConst { uint8 a[len]; uint8 t; };", ["HasConst"], ["len"]), ("struct HasField { uint8 len; uint8 data[len]; uint8 t; };", ["HasField"], ["len"]),
@@ -100,6 +103,7 @@ def signature(cs, empty_typedefs, empty_consts):
             try:
                 v = rt(PROBE)
                 entry.append(repr(impl.norm(v)))
+                entry.append(tuple(re.sub(r"__anonymous_\d+__", "__anon__", type(getattr(v, f._name)).__name__) for f in rt.__fields__))  # the values' types (enum member vs plain integer)
             except Exception as e:  # noqa: BLE001
                 entry.append("parse-exc:" + type(e).__name__)
             entry.append(bool(rt.__compiled__))
